@@ -11,14 +11,14 @@ def indexOf (c : UInt8) : Bytes → Option Nat
   | [] => none
   | x :: xs => if x = c then some 0 else (indexOf c xs).map (· + 1)
 
-/-- `strconv.Itoa` on a natural number, most significant digit first (fuel = value suffices). -/
-def itoaAux : Nat → Nat → Bytes → Bytes
-  | 0, _, acc => acc
-  | fuel + 1, n, acc =>
-    let acc' := UInt8.ofNat (48 + n % 10) :: acc
-    if n < 10 then acc' else itoaAux fuel (n / 10) acc'
+def digit (n : Nat) : UInt8 := UInt8.ofNat (48 + n % 10)
 
-def itoa (n : Nat) : Bytes := itoaAux (n + 1) n []
+/-- `strconv.Itoa` on a natural number, most significant digit first (fuel = value + 1 suffices). -/
+def itoaFuel : Nat → Nat → Bytes
+  | 0, _ => []
+  | fuel + 1, n => if n < 10 then [digit n] else itoaFuel fuel (n / 10) ++ [digit n]
+
+def itoa (n : Nat) : Bytes := itoaFuel (n + 1) n
 
 def hexDigit (n : Nat) : Char :=
   if n < 10 then Char.ofNat (48 + n) else Char.ofNat (87 + n)
